@@ -144,6 +144,7 @@ type c04Env struct {
 	sanct   *c04Actor   // sanctioned in every world (funded before the sanction)
 	quars   []*c04Actor // quarantined in every world: [0] holds "kyc.cfour.pb", [1] auto-accepts plain0 and agent0, [2] no attributes
 	holder  *c04Actor   // the quarantine funds holder (a required-attribute bypass address)
+	attrRecv *c04Actor  // ordinary account without attributes; group (k) gives it attributes per case
 	actors  map[string]*c04Actor
 	order   []*c04Actor
 	intern  map[string]int
@@ -981,6 +982,7 @@ func TestC04(t *testing.T) {
 	}
 	e.ghost = e.actor("no-account", addrN(430), false, false, false)
 	e.sanct = e.actor("sanctioned-plain", addrN(431), true, true, false)
+	e.attrRecv = e.actor("attribute-receiver", addrN(436), true, false, false)
 	for i := 0; i < 3; i++ {
 		e.quars = append(e.quars, e.actor(fmt.Sprintf("quarantined%d", i), addrN(432+i), true, i == 1, false))
 	}
@@ -1332,6 +1334,7 @@ func TestC04(t *testing.T) {
 		if wi == 0 || tier() == "thorough" {
 			e.quarantineSanctionMatrix(w)
 		}
+		e.overlappingRequiredAttributes(w, scale(120, 1500)) // (k)
 		if wi == 0 { // (i) every subset of the relevant access rights (world 0 has the fixed attribute sets)
 			e.accessSubsets(w)
 		}
